@@ -114,9 +114,12 @@ const SUB2: [u8; 2] = [0, 3];
 const SUB8: [u8; 8] = [0, 1, 2, 3, 4, 8, 9, 10];
 
 const COMMENT_BODIES: [&str; 9] = ["", " c ", "-", "{{ x }}", "%}", "<< x >>", "%>", "« x »", "§"];
-const RAW_BODIES: [&str; 14] = [
+const RAW_BODIES: [&str; 17] = [
     "", "  ", " a ", "\u{a0}b\u{a0}", "{{ x }}", "{% if %}", " {# #} ", "<< x >>", "<% if %>", " <# #> ", "« x »",
     "¶ if §", " ¿ ¡ ", " {%- endraw x %} ",
+    // a look-alike end tag whose blank is Unicode whitespace the tag lexer does not accept: still body
+    // (seeded change C08-9 recognised `endraw` after trim_start())
+    "A{%\u{a0}endraw %}B", "A{%-\u{2003}endraw -%}B", "A<%\u{a0}endraw %>B",
 ];
 const SEQ_COMMENT_BODY: &str = " c ";
 const SEQ_RAW_BODIES: [&str; 2] = [" a ", "{{ x }}"];
